@@ -3,15 +3,27 @@ From Coq Require Import List Arith Bool.
 Import ListNotations.
 From Exmex.Model Require Import Base EvalBinary Lexer Flat Deep Convert Calc Partial.
 From Exmex.Gen Require Import Tables.
+From Coq Require Import Reals.
+From Coquelicot Require Import Coquelicot.
+From Exmex.Proofs Require Import RuleAnalysis.
+Import ListNotations.
 Open Scope nat_scope.
 
 (* `_partial`.  Proved: (1) the model's table of derivative rules has exactly the names, and the binary/unary kinds,
    of make_partial_derivative_ops as the implementation reports them on THIS run (Gen/Tables.v is regenerated from
    the hook); (2) the non-differentiable default operators have no rule; (3) in the default mode a binary operator
    without a rule makes the reduction step fail with an error, never with an expression.
-   Missing: the analytic statement (the derivative expression denotes the derivative over the reals on the interior
-   of the domain, DESIGN.md C05); it is covered by the correspondence on the free term algebra (model = implementation
-   on the derivative EXPRESSION, exactly) plus the numeric oracle (central differences of the reference term). *)
+   (4) analysis, rule by rule: the expression every rule of the table builds — computed by the model's apply_urule /
+   apply_brule in the free term algebra and read over the real numbers (operators by name in the default table generated
+   on this run) — IS the derivative of the operator it belongs to, at every point of the interior of its domain:
+   the chain-rule factor of every differentiable unary operator, and the sum, difference, product, quotient and
+   (positive base, variable exponent) power rules for arbitrary differentiable operands.  [standard axioms of the real
+   numbers, see Print Assumptions]
+   Missing: the composition of the rules along an expression (the reduction in application order of
+   partial_derivative_inner, the product of the outer factors, the neutral-element shortcuts), i.e. the statement that
+   the derivative EXPRESSION of every expression denotes the derivative; it is covered by the correspondence on the free
+   term algebra (model = implementation on the derivative expression, exactly) plus the numeric oracle (central
+   differences of the reference term at generic points). *)
 Theorem C05_rule_names_match_code_partial :
   map (fun r => (fst (fst r), match snd (fst r) with Some _ => true | None => false end, match snd r with Some _ => true | None => false end)) rule_table
   = partial_rule_names.
@@ -33,5 +45,50 @@ Theorem C05_missing_binary_rule_is_error_partial :
   inner_loop C DC tb (bin_op_idx :: rest) i num_inds nodes bops MError = Err E_NORULE.
 Proof. intros. cbn [inner_loop]. rewrite H, H0, H1, H2, H3. reflexivity. Qed.
 
+Open Scope R_scope.
+(* the chain-rule factor d/dx u(x) of every unary operator with a rule: T is the term the rule builds for the operand x *)
+Theorem C05_unary_rules_are_derivatives_partial :
+  (exists T, rule_term n_sin USin = Ok T /\ forall x, is_derive sin x (rinterp (x :: nil) T)) /\
+  (exists T, rule_term n_cos UCos = Ok T /\ forall x, is_derive cos x (rinterp (x :: nil) T)) /\
+  (exists T, rule_term n_tan UTan = Ok T /\ forall x, cos x <> 0 -> is_derive tan x (rinterp (x :: nil) T)) /\
+  (exists T, rule_term n_asin UAsin = Ok T /\ forall x, -1 < x < 1 -> is_derive asin x (rinterp (x :: nil) T)) /\
+  (exists T, rule_term n_acos UAcos = Ok T /\ forall x, -1 < x < 1 -> is_derive acos x (rinterp (x :: nil) T)) /\
+  (exists T, rule_term n_atan UAtan = Ok T /\ forall x, is_derive atan x (rinterp (x :: nil) T)) /\
+  (exists T, rule_term n_sinh USinh = Ok T /\ forall x, is_derive sinh x (rinterp (x :: nil) T)) /\
+  (exists T, rule_term n_cosh UCosh = Ok T /\ forall x, is_derive cosh x (rinterp (x :: nil) T)) /\
+  (exists T, rule_term n_tanh UTanh = Ok T /\ forall x, is_derive tanh x (rinterp (x :: nil) T)) /\
+  (exists T, rule_term n_asinh UAsinh = Ok T /\ forall x, is_derive arcsinh x (rinterp (x :: nil) T)) /\
+  (exists T, rule_term n_acosh UAcosh = Ok T /\ forall x, 1 < x -> is_derive acosh x (rinterp (x :: nil) T)) /\
+  (exists T, rule_term n_atanh UAtanh = Ok T /\ forall x, -1 < x < 1 -> is_derive atanh x (rinterp (x :: nil) T)) /\
+  (exists T, rule_term n_exp UExp = Ok T /\ forall x, is_derive exp x (rinterp (x :: nil) T)) /\
+  (exists T, rule_term n_ln ULn = Ok T /\ forall x, 0 < x -> is_derive ln x (rinterp (x :: nil) T)) /\
+  (exists T, rule_term n_log ULn = Ok T /\ forall x, 0 < x -> is_derive ln x (rinterp (x :: nil) T)) /\
+  (exists T, rule_term n_log2 ULog2 = Ok T /\ forall x, 0 < x -> is_derive (fun x => ln x / ln 2) x (rinterp (x :: nil) T)) /\
+  (exists T, rule_term n_log10 ULog10 = Ok T /\ forall x, 0 < x -> is_derive (fun x => ln x / ln 10) x (rinterp (x :: nil) T)) /\
+  (exists T, rule_term n_sqrt USqrt = Ok T /\ forall x, 0 < x -> is_derive sqrt x (rinterp (x :: nil) T)) /\
+  (exists T, rule_term s_minus UNegOne = Ok T /\ forall x, is_derive (fun x => - x) x (rinterp (x :: nil) T)) /\
+  (exists T, rule_term s_plus UOne = Ok T /\ forall x, is_derive (fun x => x) x (rinterp (x :: nil) T)).
+Proof.
+  repeat split; [exact rule_sin|exact rule_cos|exact rule_tan|exact rule_asin|exact rule_acos|exact rule_atan|exact rule_sinh|exact rule_cosh|exact rule_tanh
+                |exact rule_asinh|exact rule_acosh|exact rule_atanh|exact rule_exp|exact rule_ln|exact rule_log|exact rule_log2|exact rule_log10|exact rule_sqrt
+                |exact rule_neg|exact rule_pos].
+Qed.
+
+(* the binary rules for operands f, g differentiable at t with derivatives f', g': T is the term the rule builds from
+   (f, f') and (g, g') *)
+Theorem C05_binary_rules_are_derivatives_partial :
+  forall (f g : R -> R) (t f' g' : R), is_derive f t f' -> is_derive g t g' ->
+  (exists T, brule_term s_plus BAdd = Ok T /\ is_derive (fun x => f x + g x) t (rinterp (f t :: f' :: g t :: g' :: nil) T)) /\
+  (exists T, brule_term s_minus BSub = Ok T /\ is_derive (fun x => f x - g x) t (rinterp (f t :: f' :: g t :: g' :: nil) T)) /\
+  (exists T, brule_term s_mul BMul = Ok T /\ is_derive (fun x => f x * g x) t (rinterp (f t :: f' :: g t :: g' :: nil) T)) /\
+  (exists T, brule_term s_div BDiv = Ok T /\ (g t <> 0 -> is_derive (fun x => f x / g x) t (rinterp (f t :: f' :: g t :: g' :: nil) T))) /\
+  (exists T, brule_term s_pow BPow = Ok T /\ (0 < f t -> is_derive (fun x => Rpower (f x) (g x)) t (rinterp (f t :: f' :: g t :: g' :: nil) T))).
+Proof.
+  intros f g t f' g' Hf Hg. repeat split; [exact (rule_add f g t f' g' Hf Hg)|exact (rule_sub f g t f' g' Hf Hg)|exact (rule_mul f g t f' g' Hf Hg)
+                                          |exact (rule_div f g t f' g' Hf Hg)|exact (rule_pow f g t f' g' Hf Hg)].
+Qed.
+
 Print Assumptions C05_rule_names_match_code_partial.
 Print Assumptions C05_missing_binary_rule_is_error_partial.
+Print Assumptions C05_unary_rules_are_derivatives_partial.
+Print Assumptions C05_binary_rules_are_derivatives_partial.
